@@ -83,49 +83,36 @@ def extra_lazy_probe(tier, seed):
     return dict(violations=viol, coverage=dict(lazy_probe_routes=len(real), lazy_probe_rows=real[:3]))
 
 
-LATE_PUSH = "late-push-after-close"
-
-
 def extra_dd_race(tier, seed):
     """C14: two actors asking each other at the same instant on a multi-thread runtime, many rounds:
-    every round one of the two asks must panic with 'Deadlock detected' (supporting stress test for
-    the atomicity of check-and-insert, which the model has as one step).  A survivor whose own ask to
-    the dying peer never returns is C03's known late-push finding, not a detection failure."""
+    every round one of the two asks must panic with 'Deadlock detected' and the surviving peer must
+    finish (supporting stress test for the atomicity of check-and-insert, which the model has as one
+    step).  A survivor that never finishes was the late-push defect (DESIGN.md 7b, fixed in /repo):
+    it is a violation again if it returns."""
     bins = vlib.build_harness(("dd",), bins=("director", "dd_race_probe"))
     rounds = 3000 if tier == "quick" else 30000
     out = vlib.sh([bins["dd_race_probe"], str(rounds)], timeout=1800, check=True).stdout.strip()
-    kv = dict(w.split("=", 1) for w in out.split() if "=" in w)
-    viol, known = [], []
-    ok = (kv.get("rounds") == str(rounds) and kv.get("detected") == str(rounds) and kv.get("hung") == "0"
-          and kv.get("other") == "0" and kv.get("edges_end_minus_hung") == "0")
-    sh = int(kv.get("survivor_hung", "0") or 0)
-    if not ok or sh > max(3, rounds // 100):
-        viol.append(dict(what="a concurrent two-actor ask cycle was not detected (or residue was left)",
-                         real=out, expected="rounds=N detected=N hung=0 other=0 survivor_hung<=1% edges_end_minus_hung=0",
-                         replay_cmd="dd_race_probe %d" % rounds))
-    elif sh > 0:
-        known.append(LATE_PUSH)
-    return dict(violations=viol, known_classes=known, coverage=dict(dd_race=out))
+    want = "rounds=%d detected=%d hung=0 other=0 survivor_hung=0 edges_end_minus_hung=0" % (rounds, rounds)
+    viol = []
+    if out.strip() != want:
+        viol.append(dict(what="a concurrent two-actor ask cycle was not detected, residue was left, or the surviving actor never finished",
+                         real=out, expected=want, replay_cmd="dd_race_probe %d" % rounds))
+    return dict(violations=viol, coverage=dict(dd_race=out))
 
 
 def extra_late_push(tier, seed):
     """C03 on a multi-thread runtime: asks racing with the end of their target (kill / handler panic /
-    stop).  Every ask must return once the actor has ended.  On the unchanged code about one ask in
-    several thousand does not (KNOWN FINDING, DESIGN.md section 7b: an envelope pushed by a sender that
-    already held its permit when the receiver was closed and drained is stranded, and with it the
-    reply sender); a rate far above that is a different defect."""
+    stop).  Every ask must return once the actor has ended.  (Before the fix in /repo - DESIGN.md 7b -
+    about one racing ask in 5000 never did.)"""
     bins = vlib.build_harness((), bins=("director", "late_push_probe"))
     rounds = 3000 if tier == "quick" else 30000
     out = vlib.sh([bins["late_push_probe"], str(rounds), "8"], timeout=1800, check=True).stdout.strip()
-    kv = dict(w.split("=", 1) for w in out.split() if "=" in w)
-    asks, hung = int(kv.get("asks", "0") or 0), int(kv.get("hung", "0") or 0)
-    viol, known = [], []
-    if asks == 0 or hung * 200 > asks:          # more than 0.5 % of the racing asks hang
-        viol.append(dict(what="asks do not return after their target has ended", real=out,
-                         expected="at most the known late-push rate (about 1 in 5000)", replay_cmd="late_push_probe %d 8" % rounds))
-    elif hung > 0:
-        known.append(LATE_PUSH)
-    return dict(violations=viol, known_classes=known, coverage=dict(late_push=out))
+    want = "asks=%d hung=0" % (rounds * 8)
+    viol = []
+    if out.strip() != want:
+        viol.append(dict(what="asks do not return after their target has ended", real=out, expected=want,
+                         replay_cmd="late_push_probe %d 8" % rounds))
+    return dict(violations=viol, coverage=dict(late_push=out))
 
 
 def extra_id_stress(tier, seed):
@@ -380,7 +367,7 @@ PROPS = {
         families=[("fault", NONE, 150), ("multi", NONE, 60), ("core", NONE, 100), ("hostile", NONE, 40), ("exh", NONE, 3)],
         projection="C03", monitors=["C03"],
         extra=[extra_join_probe, extra_late_push],
-        level_note="Reply integrity and 'the next poll after the target has ended finishes the operation' are proved for every reachable state; that tokio actually wakes the asker (oneshot/channel-close wakers) is runtime behaviour tied only by the correspondence runs to quiescence; ask_join is modelled as a pure function of the ask's result and of how the spawned task ended (value / panic / abort), proved exact (C03_ask_join_exact) and compared with the real crate on every case (join_probe); the task itself and tokio's JoinHandle are exercised, not modelled. On a multi-thread runtime the no-hang clause is violated by the real code in a rare race (KNOWN FINDING late-push-after-close, DESIGN.md 7b): acquiring the permit and pushing are one atomic step in the model.",
+        level_note="Reply integrity and 'the next poll after the target has ended finishes the operation' are proved for every reachable state; that tokio actually wakes the asker (oneshot/channel-close wakers) is runtime behaviour tied only by the correspondence runs to quiescence; ask_join is modelled as a pure function of the ask's result and of how the spawned task ended (value / panic / abort), proved exact (C03_ask_join_exact) and compared with the real crate on every case (join_probe); the task itself and tokio's JoinHandle are exercised, not modelled. On a multi-thread runtime the no-hang clause was violated by a rare race (an envelope pushed after the mailbox had been drained; found by the stress probes, repaired by a fix: commit in /repo, DESIGN.md 7b); the late_push_probe keeps watching for it.",
     ),
     "C07": dict(
         props_file="Props/C07.v",
